@@ -30,7 +30,11 @@ RULE = (
     "from a scripted peer over a fresh peer connection (ticket of a live request, of a removed / expired request, or "
     "unknown; 1-2 copies; arriving 2^-10 s after the current instant, exactly on the next grid instant, or exactly "
     "on the deadline of the addressed request); one server-sent WishlistInterval (1..3 s, arriving on or 2^-10 s "
-    "off the grid; starts the wishlist rounds, whose requests are learnt from SearchRequestSentEvent); "
+    "off the grid; starts the wishlist rounds, whose requests are learnt from SearchRequestSentEvent); race = a "
+    "reply for a live request arrives on the next grid instant and, once its bytes have been delivered, "
+    "remove_request for that request is called k = 0..8 loop iterations later within the same virtual instant; "
+    "scheduled replies optionally travel over a peer connection established beforehand (so that the reply is handled "
+    "in the loop iteration in which a timer of the same instant runs); "
     "change of request_timeout; advance(n*0.5 s); advance to -1/0/+1 grid steps around the deadline of a live "
     "request; step(n loop iterations) so that several operations share one virtual instant. Oracle (reference "
     "model ticket -> request object, creation time, deadline = creation + timeout in force, manual removal time): "
@@ -41,7 +45,10 @@ RULE = (
     "beyond the end; a manually removed request gets no result event, no removal event at its old deadline (at "
     "most one at the instant of the manual removal is tolerated), no exception in the loop's error record, and "
     "SearchManager.requests equals the model's live set at every half-grid checkpoint. Events on the same virtual "
-    "instant as a deadline / manual removal are ties: both outcomes are accepted, an error never is. The history "
+    "instant as a deadline / manual removal are ties: by virtual time both outcomes are accepted, an error never "
+    "is; within and outside ties the order of observations (per-case sequence counter over all events and over the "
+    "return of remove_request) must be legal: a SearchResultEvent for a request never comes after that request's "
+    "SearchRequestRemovedEvent nor after remove_request() for it has returned. The history "
     "ends with 3.5 s of quiet time so that every deadline armed by an operation has passed. Once two live requests "
     "share a ticket the case is reported and not evaluated further; observations about a ticket whose request was "
     "not removed at its deadline, or whose stale timer ran after a manual removal, are not reported a second time. "
@@ -104,7 +111,10 @@ _remove_op = st.fixed_dictionaries({
 _reply_op = st.fixed_dictionaries({
     'op': st.just('reply'), 'target': st.sampled_from(['live', 'live', 'live', 'stale', 'stale', 'unknown']),
     'i': st.integers(0, 5), 'n': st.sampled_from([1, 1, 1, 2]),
-    'when': st.sampled_from(['now', 'now', 'next', 'deadline'])})
+    'when': st.sampled_from(['now', 'now', 'next', 'deadline']), 'pre': st.booleans()})
+_race_op = st.fixed_dictionaries({
+    'op': st.just('race'), 'i': st.integers(0, 5), 'k': st.sampled_from([0, 1, 1, 2, 2, 3, 4, 5, 6, 8]), 'by': st.sampled_from(['ticket', 'request']),
+    'pre': st.booleans()})
 _adv_op = st.fixed_dictionaries({'op': st.just('adv'), 'n': st.sampled_from([1, 1, 1, 2, 2, 3, 4, 5, 6])})
 _advto_op = st.fixed_dictionaries({'op': st.just('adv_to'), 'i': st.integers(0, 5), 'off': st.sampled_from([-1, 0, 0, 1])})
 _step_op = st.fixed_dictionaries({'op': st.just('step'), 'n': st.integers(1, 6)})
@@ -114,7 +124,7 @@ _wish_op = st.fixed_dictionaries({'op': st.just('wish'), 'interval': st.sampled_
 
 _search_ops = st.lists(
     st.one_of(_search_op, _search_op, _search_op, _remove_op, _remove_op, _reply_op, _reply_op, _reply_op,
-              _adv_op, _adv_op, _advto_op, _advto_op, _step_op, _settimeout_op, _wish_op),
+              _race_op, _race_op, _adv_op, _adv_op, _advto_op, _advto_op, _step_op, _settimeout_op, _wish_op),
     min_size=0, max_size=19).flatmap(lambda ops: _search_op.map(lambda first: [first] + ops))
 
 search_strategy = st.fixed_dictionaries({
@@ -234,7 +244,11 @@ def _sanitise_search(case):
         elif name == 'reply':
             ops.append({'op': 'reply', 'target': o.get('target') if o.get('target') in ('live', 'stale', 'unknown')
                         else 'live', 'i': _int(o.get('i'), 0, 50, 0), 'n': _int(o.get('n'), 1, 2, 1),
-                        'when': o.get('when') if o.get('when') in ('next', 'deadline') else 'now'})
+                        'when': o.get('when') if o.get('when') in ('next', 'deadline') else 'now',
+                        'pre': bool(o.get('pre'))})
+        elif name == 'race':
+            ops.append({'op': 'race', 'i': _int(o.get('i'), 0, 50, 0), 'k': _int(o.get('k'), 0, 12, 1),
+                        'by': 'request' if o.get('by') == 'request' else 'ticket', 'pre': bool(o.get('pre'))})
         elif name == 'adv':
             ops.append({'op': 'adv', 'n': _int(o.get('n'), 1, 8, 1)})
         elif name == 'adv_to':
@@ -263,7 +277,7 @@ def _sanitise_search(case):
 
 class _Req:
     __slots__ = ('n', 'src', 'obj', 'ticket', 'created', 'timeout', 'deadline', 'removed_at', 'remove_status',
-                 'query')
+                 'query', 'removed_seq')
 
     def __init__(self, n, src, obj, created, timeout):
         self.n = n
@@ -276,6 +290,7 @@ class _Req:
         self.deadline = None if timeout is None else created + timeout
         self.removed_at = None
         self.remove_status = None       # model status at the manual removal ('live' | 'tie')
+        self.removed_seq = None         # per-case sequence number taken when remove_request() returned
 
     def end(self):
         ends = [x for x in (self.deadline, self.removed_at) if x is not None]
@@ -311,7 +326,12 @@ def _run_search(case) -> CaseResult:
 
     reqs: list[_Req] = []
     by_obj: dict[int, _Req] = {}
-    events = []          # (time, 'sent'|'removed'|'result', event)
+    events = []          # (time, 'sent'|'removed'|'result', event, seq)
+    seq = [0]            # per-case sequence counter: order of events and of remove_request() returns
+
+    def next_seq():
+        seq[0] += 1
+        return seq[0]
     replies = []         # dicts: id, ticket, arrival, cls
     wish_arrivals = []   # (arrival time, interval)
     checkpoints = []     # (time, {ticket: id(obj)})
@@ -348,7 +368,7 @@ def _run_search(case) -> CaseResult:
         class Listener:
             async def on_sent(self, event):
                 now = loop.time()
-                events.append((now, 'sent', event))
+                events.append((now, 'sent', event, next_seq()))
                 req = event.query
                 if req.search_type == SearchType.WISHLIST and id(req) not in by_obj:
                     if cfg['wl_timeout'] >= 0:
@@ -359,10 +379,10 @@ def _run_search(case) -> CaseResult:
                     add_req('wish', req, now, timeout, now)
 
             async def on_removed(self, event):
-                events.append((loop.time(), 'removed', event))
+                events.append((loop.time(), 'removed', event, next_seq()))
 
             async def on_result(self, event):
-                events.append((loop.time(), 'result', event))
+                events.append((loop.time(), 'result', event, next_seq()))
 
         listener = Listener()   # the event bus keeps weak references only
         client.events.register(SearchRequestSentEvent, listener.on_sent)
@@ -385,11 +405,54 @@ def _run_search(case) -> CaseResult:
             state['tick'] = target
             await _until(loop, now_t())
 
-        def deliver(ticket, rid):
-            link = bob.connect('P')
-            link.send_msg(M.PeerSearchReply.Request(
+        def reply_msg(ticket, rid):
+            return M.PeerSearchReply.Request(
                 'bob', ticket, results=[], has_slots_free=True, avg_speed=rid, queue_size=rid % 7,
-                locked_results=[]))
+                locked_results=[])
+
+        def deliver(ticket, rid, holder=None):
+            link = bob.connect('P')
+            link.send_msg(reply_msg(ticket, rid))
+            if holder is not None:
+                holder.append(link)
+
+        def schedule(ticket, rid, arrival, pre, holder=None):
+            """The reply bytes reach the client exactly at ``arrival``; with ``pre`` the peer connection is
+            established now and only the reply travels later (fewer loop iterations between arrival and handling)."""
+            if pre:
+                link = bob.connect('P')
+                loop.call_at(arrival - LAT, link.send_msg, reply_msg(ticket, rid))
+                if holder is not None:
+                    holder.append(link)
+            else:
+                loop.call_at(arrival - LAT, deliver, ticket, rid, holder)
+
+        def do_remove(r, by, T):
+            status = r.status(T)
+            if any(o is not r and o.ticket == r.ticket and o.status(T) in ('live', 'tie') for o in reqs):
+                return          # the ticket has been handed out again: remove_request(ticket) would be ambiguous
+            try:
+                manager.remove_request(r.ticket if by == 'ticket' else r.obj)
+            except KeyError as exc:
+                if status == 'live':
+                    violations.append(('C18/unexpected-exception:KeyError@remove_request',
+                                       f'removing live request {r.describe()} at {T} raised {exc!r}',
+                                       r.ticket, T))
+                    return
+            except Exception as exc:
+                violations.append((f'C18/unexpected-exception:{type(exc).__name__}@remove_request',
+                                   f'removing {r.describe()} at {T} raised {exc!r}', r.ticket, T))
+                return
+            r.removed_seq = next_seq()
+            if manager.requests.get(r.ticket) is r.obj:
+                violations.append(('C18/requests-table:still-registered-after-remove', r.describe(),
+                                   r.ticket, T))
+            r.removed_at = T
+            r.remove_status = status
+            if status == 'tie':
+                notes['ties'].add('remove-at-deadline')
+            if r.deadline is not None and abs(r.deadline - T) <= TICK + EPS:
+                notes['near'] = True
 
         for op in cfg['ops']:
             T = now_t()
@@ -438,31 +501,7 @@ def _run_search(case) -> CaseResult:
                 due = [r for r in pop if r.status(T) == 'tie']
                 if op['pref'] == 'due' and due:
                     pop = due
-                r = pop[op['i'] % len(pop)]
-                status = r.status(T)
-                if any(o is not r and o.ticket == r.ticket and o.status(T) in ('live', 'tie') for o in reqs):
-                    continue    # the ticket has been handed out again: remove_request(ticket) would be ambiguous
-                try:
-                    manager.remove_request(r.ticket if op['by'] == 'ticket' else r.obj)
-                except KeyError as exc:
-                    if status == 'live':
-                        violations.append(('C18/unexpected-exception:KeyError@remove_request',
-                                           f'removing live request {r.describe()} at {T} raised {exc!r}',
-                                           r.ticket, T))
-                        continue
-                except Exception as exc:
-                    violations.append((f'C18/unexpected-exception:{type(exc).__name__}@remove_request',
-                                       f'removing {r.describe()} at {T} raised {exc!r}', r.ticket, T))
-                    continue
-                if manager.requests.get(r.ticket) is r.obj:
-                    violations.append(('C18/requests-table:still-registered-after-remove', r.describe(),
-                                       r.ticket, T))
-                r.removed_at = T
-                r.remove_status = status
-                if status == 'tie':
-                    notes['ties'].add('remove-at-deadline')
-                if r.deadline is not None and abs(r.deadline - T) <= TICK + EPS:
-                    notes['near'] = True
+                do_remove(pop[op['i'] % len(pop)], op['by'], T)
             elif name == 'reply':
                 if op['target'] == 'live':
                     pop = [r for r in reqs if r.status(T) in ('live', 'tie')]
@@ -486,8 +525,30 @@ def _run_search(case) -> CaseResult:
                     if op['when'] == 'now':
                         deliver(ticket, rid)
                     else:
-                        loop.call_at(arrival - LAT, deliver, ticket, rid)
+                        schedule(ticket, rid, arrival, op['pre'])
                     replies.append({'id': rid, 'ticket': ticket, 'arrival': arrival, 'cls': cls, 'dup': k > 0})
+            elif name == 'race':
+                # a reply for a live request reaches the client on the next grid instant; once its bytes have been
+                # delivered the request is removed k loop iterations later, still within the same virtual instant
+                pop = [r for r in reqs if r.removed_at is None and r.status(T) == 'live'
+                       and (r.deadline is None or r.deadline > T + TICK + EPS)]
+                if not pop:
+                    continue
+                r = pop[op['i'] % len(pop)]
+                state['reply_id'] += 1
+                rid = state['reply_id']
+                holder = []
+                schedule(r.ticket, rid, T + TICK, op['pre'], holder)
+                replies.append({'id': rid, 'ticket': r.ticket, 'arrival': T + TICK, 'cls': 'live', 'dup': False})
+                await advance(1)
+                for _ in range(20):
+                    lk = holder[0].ep.link if holder else None
+                    if lk is not None and lk.sent[0] > 0 and lk.delivered[0] >= lk.sent[0]:
+                        break
+                    await simloop.step(1)
+                await simloop.step(op['k'])
+                do_remove(r, op['by'], now_t())
+                notes['race'] = True
             elif name == 'adv':
                 await advance(op['n'])
             elif name == 'adv_to':
@@ -538,7 +599,7 @@ def _run_search(case) -> CaseResult:
 
     # ---- removal events --------------------------------------------------
     removed_events: dict[int, list[float]] = {}
-    for t, kind, ev in events:
+    for t, kind, ev, sq in events:
         if kind != 'removed':
             continue
         r = by_obj.get(id(ev.query))
@@ -601,7 +662,7 @@ def _run_search(case) -> CaseResult:
     # ---- result events ---------------------------------------------------
     result_events: dict[int, list] = {}
     known_ids = {rp['id'] for rp in replies}
-    for t, kind, ev in events:
+    for t, kind, ev, sq in events:
         if kind != 'result':
             continue
         rid = ev.result.avg_speed
@@ -609,6 +670,19 @@ def _run_search(case) -> CaseResult:
             res.violate('C18/result-event-unsolicited', f'at {t}: {ev.result!r}')
             continue
         result_events.setdefault(rid, []).append((t, ev))
+        r = by_obj.get(id(ev.query))
+        if r is not None and not (r.ticket in tainted and t >= tainted[r.ticket] - EPS):
+            # never legal, tie or not: a result reported after the removal of its request was reported / returned
+            if r.removed_seq is not None and sq > r.removed_seq:
+                res.violate('C18/result-event-after-removal:manual',
+                            f'{r.describe()}: SearchResultEvent (seq {sq}, t={t}) after remove_request() returned '
+                            f'(seq {r.removed_seq})')
+            else:
+                earlier = [q for tt, kk, ee, q in events if kk == 'removed' and ee.query is ev.query and q < sq]
+                if earlier:
+                    res.violate('C18/result-event-after-removal:timeout',
+                                f'{r.describe()}: SearchResultEvent (seq {sq}, t={t}) after its '
+                                f'SearchRequestRemovedEvent (seq {earlier[0]})')
 
     expected_stored: dict[int, int] = {}
     for rp in replies:
@@ -722,6 +796,8 @@ def _run_search(case) -> CaseResult:
         res.label('near-deadline')
     if wish_arrivals:
         res.label('wishlist-rounds')
+    if notes.get('race'):
+        res.label('race:remove-k-iterations-after-reply')
     res.nontrivial = bool(notes['ties'] or notes['near'])
     return res
 
